@@ -58,8 +58,8 @@ func TypeName(t reflect.Type) string {
 }
 
 func rootIsInterface(t reflect.Type) bool {
-	for t.Kind() == reflect.Slice || t.Kind() == reflect.Ptr || t.Kind() == reflect.Array {
-		t = t.Elem()
+	for i := 0; i < 64 && (t.Kind() == reflect.Slice || t.Kind() == reflect.Ptr || t.Kind() == reflect.Array); i++ {
+		t = t.Elem() // (bounded: type Tree []Tree has no root)
 	}
 	return t.Kind() == reflect.Interface
 }
